@@ -543,7 +543,30 @@ def check_closure_gluing(facts, rep):
             rr = sorted({dk(q.ret) for q in SymEx(cb).run() if q.end == 'return'})
             if rr and all(re.match(r'unwrap_or\((copied\(|cloned\()?get\(arg1\.\^conn, arg2\)\)?, arg2\)$', x) for x in rr):
                 apply = ['unwrap_or(get(arg1.^conn, arg2), arg2)']
+    # the same gluing written with loops: conn.insert(bottom, top) for (top, bottom) in bottom_edges.into_iter().enumerate()
+    # [.take(strands)], applied in place: if let Some(&top) = conn.get(e) { *e = top }
+    def lk(t):
+        return re.sub(r'_f\d+_\d+|_\d+', 'IT', re.sub(r'loopf\d+:\d+_\d+', 'L', dk(t))).replace('mut ', '')
+    ins, inplace, ents, gets = set(), set(), set(), set()
+    for p in SymEx(b, havoc_loops=True, max_paths=5000).run() if not zips else []:
+        for (fid_, bb_, l_), v_ in p.state.loop_entry.items():
+            if strip(v_)[0] != 'loopvar':
+                ents.add(lk(v_))
+        for e in p.events:
+            if e.kind == 'call' and e.name.split('::')[-1] == 'insert' and len(e.args) == 3 and 'Map' in e.name:
+                ins.add((lk(e.args[1]), lk(e.args[2])))
+            if e.kind == 'call' and e.name.split('::')[-1] == 'get' and len(e.args) == 2 and 'Map' in e.name:
+                gets.add(lk(e.args[1]))
+            if e.kind == 'write' and e.lv[0][0] == 'ptr' and 'next(' in lk(e.lv[0][1]) and 'get(' in lk(e.term):
+                inplace.add((lk(e.lv[0][1]), lk(e.term)))
+    loop_form = (not zips and not sorts and apply is None and
+                 ins == {('next(IT).Some.0.1', 'next(IT).Some.0.0')} and
+                 bool(ents & {'into_iter(take(enumerate(into_iter(L)), arg1.strands))', 'into_iter(enumerate(into_iter(L)))'}) and
+                 gets == {'next(IT).Some.0'} and inplace == {('next(IT).Some.0', 'get(L, next(IT).Some.0).Some.0')})
     inst = 'Braid::closure|bottom edge at position i is identified with top edge i'
+    if loop_form:
+        rep.ok('E7.T10-closure-gluing', inst, 'conn.insert(bottom_edges[i], i) over enumerate; entries replaced in place through conn.get')
+        return
     good = zips == {('into_iter(L)', 'Range::Range{start: 0, end: arg1.strands}')} and not sorts and apply == ['unwrap_or(get(arg1.^conn, arg2), arg2)']
     if good:
         rep.ok('E7.T10-closure-gluing', inst, 'conn = zip(bottom_edges, 0..strands); x -> conn.get(x).unwrap_or(x)')
@@ -590,8 +613,31 @@ def check_closure_letters(facts, rep):
             if e.name.split('::')[-1] in ('into_iter', 'iter') and len(e.args) == 1 and 'loop' not in show(e.args[0], -1000) and src is None:
                 src = strip(e.args[0])
     if src is None:
-        rep.indet('E7.T11: source of the crossing loop of Braid::closure not found')
-        return
+        # a counting loop: k = 0; while k < self.elements.len() { let s = &self.elements[k]; ..; k += 1 }
+        ok_counter = bool(letter)
+        for p in letter:
+            ks = set()
+            for c in p.branches():
+                t = c.term
+                if t[0] == 'bin' and t[1] == 'Lt' and strip(t[2])[0] == 'loopvar' and c.value != 0:
+                    e_ = strip(t[3])
+                    if e_[0] == 'call' and e_[1].split('::')[-1] == 'len' and len(e_[2]) == 1 and strip(e_[2][0]) == ('field', ('deref', ('arg', 1)), 'elements') or \
+                            (e_[0] == 'call' and e_[1].split('::')[-1] == 'len' and len(e_[2]) == 1 and re.sub(r'[&*]', '', show(e_[2][0], -1000)) == 'arg1.elements'):
+                        ks.add(strip(t[2]))
+            if len(ks) != 1:
+                ok_counter = False
+                break
+            K = next(iter(ks))
+            ent = [v for (fid, bb_, l), v in p.state.loop_entry.items() if fid == 0 and l == K[2]]
+            fin = p.mem.get((('local', K[2]), ()))
+            used = any(e.name.split('::')[-1] == 'index' and len(e.args) == 2 and strip(e.args[1]) == K and re.sub(r'[&*]', '', show(e.args[0], -1000)) == 'arg1.elements' for e in p.calls())
+            if not (ent and all(v == ('const', 0) for v in ent) and fin is not None and re.sub(r'#\S+', '', show(fin, -1000)) == 'AddWithOverflow(%s, 1).0' % show(K, -1000) and used):
+                ok_counter = False
+                break
+        if not ok_counter:
+            rep.indet('E7.T11: source of the crossing loop of Braid::closure not found')
+            return
+        src = ('field', ('arg', 1), 'elements')
     # order- and length-preserving adapters between the word and the loop
     while src[0] == 'call' and src[1].split('::')[-1] in ('enumerate', 'iter', 'into_iter', 'copied', 'cloned', 'by_ref', 'as_slice', 'deref') and len(src[2]) == 1:
         src = strip(src[2][0])
